@@ -98,6 +98,7 @@ pub fn run(ctx: &Ctx) -> Report {
         run_part(ctx, &mut rep, &shallow_part(ctx.tier));
     }
     run_part(ctx, &mut rep, &super::sweep::mode_part(&SYS_MODES, ctx.tier));
+    super::sweep::mode_number_sweep(ctx, &mut rep, &SYS_MODES);
     rep.rule = "lock-step BFS of (real Vt, reference terminal keeping one optional saved context per screen) over the four save and four restore spellings (7- and 8-bit), cursor placement incl. the wrap-pending column, pens, DECOM/DECAWM toggles, margins, 47/1047/1049 switches, DECSTR, resizes; after every transition the cursor, pen, origin and auto-wrap mode and BOTH saved contexts (hook) are compared; after a resize only 'inside the screen' is required of a restored position".into();
     rep.assumptions = vec!["R6: DECSTR and RIS discard the saved context of the showing screen / both screens".into()];
     rep
@@ -107,6 +108,9 @@ pub fn replay(ctx: &Ctx, v: &Value) -> bool {
     let tier = if v["tier"] == "thorough" { Tier::Thorough } else { Tier::Quick };
     if v["part"] == "save-restore-lockstep-3x3" {
         return replay_part(ctx, &shallow_part(Tier::Quick), v);
+    }
+    if v["part"] == "every-mode-number" {
+        return super::sweep::mode_number_replay(ctx, &SYS_MODES);
     }
     if v["part"] == "mode-list-shapes" {
         return replay_part(ctx, &super::sweep::mode_part(&SYS_MODES, tier), v);
